@@ -42,12 +42,12 @@ impl DisjointSetUnion {
     }
 
     fn root(&mut self, x: usize) -> usize {
-        let mut parent = x;
-        while parent != self.parents[x] {
-            self.parents[x] = self.parents[self.parents[x]]; //path compression
-            parent = self.parents[x];
+        let mut x = x;
+        while x != self.parents[x] {
+            self.parents[x] = self.parents[self.parents[x]]; //path halving
+            x = self.parents[x];
         }
-        parent
+        x
     }
 }
 
@@ -115,6 +115,25 @@ fn test_root() {
     assert_eq!(dsu.root(2), common);
     assert_eq!(dsu.root(3), common);
     assert_eq!(dsu.root(4), 4);
+}
+
+#[test]
+fn test_root_deep_chain() {
+    // unions that build a chain of depth 3 (0 -> 1 -> 3 -> 7):
+    // root must follow the chain to the representative
+    let mut dsu = DisjointSetUnion::new(8);
+    dsu.union(0, 1);
+    dsu.union(2, 3);
+    dsu.union(1, 3);
+    dsu.union(4, 5);
+    dsu.union(6, 7);
+    dsu.union(5, 7);
+    dsu.union(3, 7);
+    assert!(dsu.in_same_set(0, 7));
+    let common = dsu.root(7);
+    for i in 0..8 {
+        assert_eq!(dsu.root(i), common);
+    }
 }
 
 // read-only verification accessors (compiled only with --cfg clarabel_verif)
